@@ -918,6 +918,9 @@ class Generator:
             elif re.search(rto, line):
                 pos_to = b0 + lm.end()
                 break
+        if pos_from is not None and pos_to is None and rto == "$END":
+            # `to: /$END/`: the slice runs to the end of the function body
+            pos_to = text.rfind("\n", b0, b1) + 1
         if pos_from is None or pos_to is None:
             raise LostAnchor("%s: slice anchors /%s/ .. /%s/ not found in %s" % (file, rfrom, rto, path[-1]))
         if to_kind == "until":
